@@ -44,7 +44,67 @@ def run(facts, rep, tier):
     verdict(F, rep, f)
     exitcode(F, rep, f)
     filt(F, rep, f)
+    stopreported(F, rep, f)
     status(F, rep)
+
+
+def root_local(f, l, depth=10):
+    """Follow `_a = &_b` / `_a = copy|move _b` chains of single-assignment temporaries back to the user local."""
+    for _ in range(depth):
+        if l in f.names:
+            return l
+        d = f.single_def(l)
+        if d is None or d[2] != "assign":
+            return l
+        rv = d[3]
+        if rv["r"] in ("ref", "cfd") and all(e[0] == "deref" for e in rv["p"]["p"]):
+            l = rv["p"]["l"]
+        elif rv["r"] in ("use", "cast"):
+            pl = op_place(rv["o"])
+            if pl is None or any(e[0] != "deref" for e in pl["p"]):
+                return l
+            l = pl["l"]
+        else:
+            return l
+    return l
+
+
+def stopreported(F, rep, f):
+    """STOP — `-x` stops on the REPORTED result: the TestResult examined under `stop_on_fail` is the value that is
+    printed and recorded (after the xfail inversion), not the raw outcome of run_single_test. Otherwise an expected
+    failure (@xfail) stops the run, the remaining tests never execute and the run exits 0."""
+    from c09 import bool_edges
+    stop = [l for l, n in f.names.items() if n == "stop_on_fail"]
+    if not rep.anchor("STOP", "parameter stop_on_fail of run_tests", stop):
+        return
+    under = set()
+    for (a, b) in bool_edges(f, stop[0], True):
+        under |= blocks_dominated_by_edge(f, a, b)
+    examined = set()
+    for bi in sorted(under):
+        for st in f.stmts(bi):
+            if st["s"] == "assign" and st["rv"]["r"] == "discr" and (st["rv"].get("adt") or "").endswith("TestResult"):
+                examined.add(root_local(f, st["rv"]["p"]["l"]))
+    printed = set()
+    for bi, t in f.calls():
+        if (callee_name(t) or "").endswith("print_test_result") and len(t["args"]) > 1:
+            pl = op_place(t["args"][1])
+            if pl is not None:
+                printed.add(root_local(f, pl["l"]))
+    if not rep.anchor("STOP", "TestResult examined under stop_on_fail", examined) or \
+            not rep.anchor("STOP", "print_test_result(&test, &result, ..) in run_tests", printed):
+        return
+    ok = examined <= printed
+    rep.oblige("STOP", "stop-on-reported-result", ok,
+               sample={"rule": "STOP", "examined_under_stop_on_fail": sorted(f.names.get(x, "_%d" % x) for x in examined),
+                       "printed": sorted(f.names.get(x, "_%d" % x) for x in printed)})
+    if not ok:
+        rep.add(Finding("STOP", "STOP|run_tests|raw-outcome",
+                        "the -x stop decision examines %s, not the reported result %s: it is taken before the xfail "
+                        "inversion, so an @xfail test that fails as expected stops the run and later failures are "
+                        "never executed (exit 0)" % (sorted(f.names.get(x, "_%d" % x) for x in examined - printed),
+                                                     sorted(f.names.get(x, "_%d" % x) for x in printed)),
+                        file=f.file, line=f.line, fn=f.path))
 
 
 def fielduse(F, rep):
